@@ -161,3 +161,37 @@ def birthday_pairs(valid_body: str, other_bodies: dict, limit=300000):
             if p:
                 out[f"{fname}/{oname}"] = p
     return out
+
+
+# ---------------------------------------------------------------- normalisation twins
+# Groups of DISTINCT strings that a "tidying" step (strip, whitespace collapse, case folding, Unicode
+# normalisation, numeric coercion, lossy encoding, line-ending normalisation) would identify.  As unit
+# ids, salts and literals each member is its own value; the reference model never identifies them.
+NEAR_TWINS = [
+    ("u17", "u17 ", " u17", "u17\n", "\tu17", "u17 ", "u17\r\n", "u17\x00", "﻿u17", "u17​"),
+    ("a b", "a  b", "a\tb", "ab", "a b", "a\nb", "a b", "a-b", "a_b"),
+    ("User", "user", "USER", "uſer", "ｕser"),
+    ("é", "é", "e", "É"),
+    ("Å", "Å", "Å"),
+    ("Ω", "Ω"),
+    ("ｃｈｅｃｋｏｕｔ", "checkout", "checkout ", " checkout", "Checkout"),
+    ("growth²", "growth2"),
+    ("ﬁlter", "filter"),
+    ("١٢٣", "123", "１２３", " 123", "0123", "123.0", "+123", "1_2_3", "1.23e2", "123 "),
+    ("7", "07", "007", "7.0", "7e0", "٧"),
+    ("ready?", "ready�", "ready", "ready??"),
+    ("nan", "NaN", "NAN"),
+    ("True", "true", "1"),
+    ("None", "none", "", "null"),
+    ("가", "가"),
+]
+
+
+def near_twin_values():
+    """flat list, group members adjacent"""
+    return [s for g in NEAR_TWINS for s in g]
+
+
+def near_twin_pairs():
+    """(a, b) for every group: first member against each other member"""
+    return [(g[0], x) for g in NEAR_TWINS for x in g[1:]]
